@@ -221,6 +221,9 @@ def task_minimise(task):
 
     if var["type"] == "explicit":
         return {"op": op}   # explicit rowid permutations are tied to the row count
+    if (op.get("meta") or {}).get("sampling"):
+        # the row count is the point of these workloads: shrink the script only
+        return {"op": minimise.shrink_op(op, sf, max_tests=6, shrink_rows=False)}
     return {"op": minimise.shrink_op(op, sf, max_tests=60)}
 
 
